@@ -379,7 +379,11 @@ def notifyNew (k : Key) (b : Bundle) (n : Node) : Node :=
     let m : SprayMeta :=
       match b.bsCopies with
       | some c => { sent := b.prev.toList, copies := c }
-      | none => { sent := [], copies := n.cfg.sprayL }
+      | none =>
+        -- without a block: originated here ⇒ the full multiplicity; a foreign bundle ⇒ one copy, previous node
+        -- remembered (/repo: "binary spray: a relayed bundle without metadata block …")
+        if hasEndpoint n.cfg b.src then { sent := [], copies := n.cfg.sprayL }
+        else { sent := b.prev.toList, copies := 1 }
     { n with spray := setMeta n.spray k m }
   | .prophet =>
     match b.prev with
